@@ -283,6 +283,37 @@ func IP2(rc *RC) {
 		over, idx := h[:k], h[k+4:]
 		elem := over + "[" + idx + "]"
 		env := map[string]string{}
+		// appends nested in branches of the loop body: an operand that gets an iterator built for
+		// another tensor (the receiver's, say) shares a stateful walker with it
+		lists := map[string]bool{}
+		env0 := map[string]string{}
+		walkNodes(lp.Kids, func(st *ir.Node) {
+			if (st.Kind == "let" || st.Kind == "store") && ldIdent.FindString(st.Target) == st.Target && !strings.HasPrefix(st.Value, "append(") {
+				env0[st.Target] = st.Value
+			}
+		})
+		walkNodes(lp.Kids, func(st *ir.Node) {
+			if (st.Kind == "let" || st.Kind == "store") && ldIdent.FindString(st.Target) == st.Target {
+				if m := regexp.MustCompile(`^append\(` + regexp.QuoteMeta(st.Target) + `, (.*)\)$`).FindStringSubmatch(st.Value); m != nil && strings.Contains(substEnv(m[1], env0), "Iterator") {
+					lists[st.Target] = true
+				}
+			}
+		})
+		for _, top := range lp.Kids {
+			if top.Kind != "if" {
+				continue
+			}
+			walkNodes([]*ir.Node{top}, func(st *ir.Node) {
+				if (st.Kind == "let" || st.Kind == "store") && lists[st.Target] {
+					if m := regexp.MustCompile(`^append\(` + regexp.QuoteMeta(st.Target) + `, (.*)\)$`).FindStringSubmatch(st.Value); m != nil {
+						n++
+						if !strings.Contains(m[1], elem) {
+							bad = append(bad, fmt.Sprintf("under a branch of the loop the iterator appended for %s is %s, which is not built from %s: two operands would share one stateful iterator", elem, m[1], elem))
+						}
+					}
+				}
+			})
+		}
 		for _, st := range lp.Kids {
 			// indexed form: its[j] = IteratorFromDense(…)
 			if (st.Kind == "let" || st.Kind == "store") && strings.HasSuffix(st.Target, "["+idx+"]") && strings.Contains(st.Value, "Iterator") {
